@@ -16,7 +16,7 @@ Definition keeps (cs : list ascii) (l : string) : bool :=
 (* well-formedness: ATOM/HETATM records are at least 22 columns wide (line[21] exists) *)
 Definition wf_line (l : string) : bool := negb (is_atom_tag (slice 0 6 l)) || Nat.leb 22 (String.length l).
 
-Lemma atom_tag_not_model tag : is_atom_tag tag = true -> String.eqb tag "MODEL " = false /\ String.eqb tag "TER   " = false.
+Lemma atom_tag_not_model tag : is_atom_tag tag = true -> String.eqb tag "MODEL " = false /\ is_ter tag = false.
 Proof.
   unfold is_atom_tag. intros H. apply orb_true_iff in H as [H|H]; apply String.eqb_eq in H; rewrite H; split; reflexivity.
 Qed.
